@@ -179,4 +179,16 @@ theorem settings_arguments_followed :
 theorem caller_argument_escapes_known :
     Gen.GlobalState.callerArgEscapes.all (fun e => Known.callerArgEscapes.contains e) = true := by decide
 
+/-! #### process-wide settings of other modules -/
+
+/-- the calls / stores through which code of the package can change process-global state of the standard library or of
+    third-party modules are exactly the classified ones (a new `csv.field_size_limit(n)`, `sys.setrecursionlimit`,
+    `locale.setlocale`, `decimal.getcontext().prec = …`, `os.environ[…] = …`, `logging.basicConfig`, … changes the list) -/
+theorem process_setting_writes_known :
+    Gen.GlobalState.processSettingWrites = Known.processSettingWrites.map (fun r => (r.1, r.2.1, r.2.2.1)) := by rfl
+
+/-- none of them leaves a setting changed: the hypothesis `KeepsSettings` of `runs_independent_full` for the code -/
+theorem no_unrestored_setting :
+    Known.processSettingWrites.all (fun r => decide (r.2.2.2.1 ≠ .notRestored)) = true := by decide
+
 end SnowModel.Props.C19Bridge
